@@ -66,4 +66,9 @@ def check(run, model, tier):
     run.rule('TOKEN.pairing', 'the consumer takes one wake-up token and at most one event per loop iteration (the precondition under which "token queue full" means "deque full" in append/appendleft)')
     from sa.context import callgraph
     queues.token_pairing(run, model, callgraph(model), 'TOKEN.pairing')
+    run.rule('LAYER.queue-writers', 'only post_fifo/post_lifo, next_rtc, stop() (wake-up item) and the LockingDeque itself operate on the pending-event queue')
+    queues.check_queue_writers(run, model, 'LAYER.queue-writers')
+    run.rule('ENDS.queue-class', 'the pending and deferral queues are collections.deque objects (or subclasses that redefine none of deque\'s interface)')
+    from sa.context import callgraph as _cgq
+    queues.check_queue_classes(run, model, _cgq(model), 'ENDS.queue-class')
     run.assume('subscriber queues are deques or LockingDeques consumed from the left by next_rtc (C14)')
